@@ -50,6 +50,12 @@ def run(ctx, prog):
     ctx.not_decided = ['which byte-level damage the CRC32 / bincode layers detect',
                        'damage to files the MANIFEST does not name']
     rec = ctx.body('C13.R1', 'HnswBackend::recover_with_hnsw_params_and_mode')
+    # the locals the rules talk about are found by what they ARE, not by what they are called (a pure rename in /repo must not matter):
+    #   the replay skip boundary = the u64 that is 0 or the loaded snapshot's last_wal_seq; the fallback flag = second component of load_with_validation's Ok value;
+    #   the segment path = the PathBuf joined from an element of manifest.wal_segments (recovery has a second `wal_path`, for the fresh segment, hence a role name of its own)
+    util.bind_role(rec, 'snapshot_last_wal_seq', type_rx=r'^u64$', origin_rx=r'^phi\(0 \| Snapshot::load_with_validation\(.*→Snapshot\.last_wal_seq\)$', full=True)
+    util.bind_role(rec, 'recovered_from_fallback', type_rx=r'^bool$', origin_rx=r'^Snapshot::load_with_validation\(.*\)@Ok→Ok\.0\.1$')
+    util.bind_role(rec, 'replayed_segment_path', type_rx=r'path::PathBuf$', origin_rx=r'^Path::join\(.*→Manifest\.wal_segments\)@Some→Some\.0\)$', full=True)
     ov = flow.Origin(rec, stop_at_vars=True)
 
     # ------------------------------------------------------------------ R1
@@ -89,7 +95,7 @@ def run(ctx, prog):
         ctx.inst('C13.R1', rec.short, 'tolerant read_all only on a BestEffort edge', c.bb not in r,
                  'read_all at %s %s' % (c.loc, 'reachable without a BestEffort edge' if c.bb in r else 'only past a BestEffort edge'))
     # `continue`/skip of a missing segment only under BestEffort
-    ex = sw_edges(rec, ov, r'^!bool\[Path::exists\(var:wal_path\)\]$|^!bool\[Path::exists\(.*wal_path.*\)\]$')
+    ex = sw_edges(rec, ov, r'^!bool\[Path::exists\(var:replayed_segment_path\)\]$|^!bool\[Path::exists\(var:wal_path\)\]$|^!bool\[Path::exists\(.*wal_path.*\)\]$')
     if not ex:
         ctx.missing('C13.R1', 'recovery: `!wal_path.exists()` test')
     else:
@@ -151,7 +157,13 @@ def run(ctx, prog):
         ctx.inst('C13.R2', ras.short, 'Ok only when corrupted_entries == 0', fails_refuse and dom and use == 'propagated',
                  'corrupted>0 edge refuses: %s; every Ok return passes the ==0 edge: %s; read_all result: %s' % (fails_refuse, dom, use))
     sl = ctx.body('C13.R2', 'Snapshot::load')
+    # roles, not names: the computed checksum is the u32 returned by crc32fast::hash, the version header the u32 decoded by bincode::deserialize_from.  The magic word
+    # and the stored checksum are both `u32::from_le_bytes(<4 bytes read>)` — what tells them apart is what they are compared WITH, so the three guards are recognised
+    # on the fully expanded comparison as well (below), which names no local at all
+    util.bind_role(sl, 'computed_checksum', type_rx=r'^u32$', assigned_from=r'crc32fast::hash$')
+    util.bind_role(sl, 'snapshot_version', type_rx=r'^u32$', origin_rx=r'^bincode::deserialize_from\(', full=True)
     osl = flow.Origin(sl, stop_at_vars=True)
+    osl_full = flow.Origin(sl)
     # writer side constants (the reader must compare with what the writer writes)
     sv = ctx.body('C13.R2', 'Snapshot::save')
     wmagic = None
@@ -167,12 +179,15 @@ def run(ctx, prog):
                 wver = rv_['ops'][rv_['fields'].index('version')].get('int')
     ctx.inst('C13.R2', 'Snapshot', 'writer constants found', wmagic is not None and wver is not None,
              'magic written by save: %s; version written by new: %s' % (wmagic, wver), nontrivial=False)
-    GUARDS = [('magic', r'cmp\[\+ var:magic_val == %s\]$' % wmagic),
-              ('checksum', r'cmp\[\+ (var:computed_checksum - var:stored_checksum|var:stored_checksum - var:computed_checksum) == 0\]$'),
-              ('version', r'cmp\[\+ var:snapshot_version == %s\]$' % wver)]
-    for nm, rx in GUARDS:
-        fail = sw_edges(sl, osl, '^!' + rx)
-        pas = sw_edges(sl, osl, '^' + rx)
+    # each guard in two renderings of the same switch: variable level (by name / role) and fully expanded (what is compared: the decoded word with the writer's magic,
+    # the CRC of the payload with the decoded word, the decoded version header with the writer's version)
+    CRC_EQ_FULL = r'cmp\[\+ (crc32fast::hash\(.*\) - num::from_le_bytes\(.*\)|num::from_le_bytes\(.*\) - crc32fast::hash\(.*\)) == 0\]$'
+    GUARDS = [('magic', r'cmp\[\+ var:magic_val == %s\]$' % wmagic, r'cmp\[\+ num::from_le_bytes\([^()]*\) == %s\]$' % wmagic),
+              ('checksum', r'cmp\[\+ (var:computed_checksum - var:stored_checksum|var:stored_checksum - var:computed_checksum) == 0\]$', CRC_EQ_FULL),
+              ('version', r'cmp\[\+ var:snapshot_version == %s\]$' % wver, r'cmp\[\+ bincode::deserialize_from\(.*\)@Continue→Continue\.0 == %s\]$' % wver)]
+    for nm, rx, rx_full in GUARDS:
+        fail = sw_edges(sl, osl, '^!' + rx) or sw_edges(sl, osl_full, '^!' + rx_full)
+        pas = sw_edges(sl, osl, '^' + rx) or sw_edges(sl, osl_full, '^' + rx_full)
         if not fail or not pas:
             ctx.inst('C13.R2', sl.short, 'Ok only past the %s guard' % nm, False, 'anchor missing: %s comparison not found in a recognised form' % nm)
             continue
@@ -186,6 +201,10 @@ def run(ctx, prog):
     if cc:
         r = flow.render(fo.of_local(cc[0]))
         ctx.inst('C13.R2', sl.short, 'checksum computed over the payload bytes', 'crc32fast::hash' in r, 'computed_checksum = %s' % r[:120])
+    else:
+        # no local in that role (inlined into the comparison, or neither role nor name found): decide on the compared value itself
+        cmps = [p for _, _, p in sw_edges(sl, osl_full, '^' + CRC_EQ_FULL)]
+        ctx.inst('C13.R2', sl.short, 'checksum computed over the payload bytes', bool(cmps), 'checksum comparison: %s' % (cmps[0][:120] if cmps else 'not found'))
     vn = sl.calls_to('Snapshot::validate_and_normalize')
     ctx.inst('C13.R2', sl.short, 'validate_and_normalize propagated', bool(vn) and util.result_use(sl, vn[0]) == 'propagated',
              'validate_and_normalize result: %s' % (util.result_use(sl, vn[0]) if vn else 'missing'))
@@ -196,6 +215,11 @@ def run(ctx, prog):
     ctx.rule('C13.R4', 'each UnexpectedEof exit of WalReader::read_all writes state the strict decision can see, so that a '
                        'mid-frame end of a non-newest segment can be refused')
     ra = ctx.body('C13.R3', 'WalReader::read_all')
+    # roles in the frame reader: the frame length = the usize decoded from the size header that sizes the payload buffer; the computed checksum = result of
+    # crc32fast::hash; the stored checksum = the (only) u32 decoded from bytes of the file
+    util.bind_role(ra, 'entry_size', type_rx=r'^usize$', origin_rx=r'^num::from_le_bytes\(', used_as=(r'vec::from_elem$', 1))
+    util.bind_role(ra, 'computed_checksum', type_rx=r'^u32$', assigned_from=r'crc32fast::hash$')
+    util.bind_role(ra, 'stored_checksum', type_rx=r'^u32$', origin_rx=r'^num::from_le_bytes\(')
     ora = flow.Origin(ra, stop_at_vars=True)
     counts = util.assign_blocks(ra, r'WalReader\.corrupted_entries$')
     state_w = set(counts) | set(util.assign_blocks(ra, r'WalReader\.\w+$'))
